@@ -71,13 +71,17 @@ ROUTER_NOTE = ("Modelled, not verified: StreamMap 0.1.14, HashMap iteration orde
                "Vec::swap_remove - validated event-for-event (incl. wake-up bits) by the acceptor on every implementation trace. Executor contract (re-poll after wake) assumed.")
 
 CHECKS['C02'] = {
-    'technique': 'machine-checked proof in Coq (invariants of the req/rep router LTS: reply accounting, origin tagging) + trace-acceptor correspondence and trace predicates',
+    'technique': 'machine-checked proof in Coq (invariants of the req/rep router LTS: reply accounting, origin tagging, order and at-most-once of requests and replies by a step-effect argument) + trace-acceptor correspondence and trace predicates',
     'text': ("reqrep::Topic::poll and Router (Sink<Frame>) are modelled as an executable transition system; the real Topic future is driven with scripted requestors/repliers "
              "(forged/junk tags, colliding req_ids, out-of-order and junk replies, bursts of repliers) and every implementation trace must be accepted event-for-event, "
              "with exact frames (tag overwritten on requests, tag stripped on replies, other headers and payload intact) and wake-up bits. PROVED for every accepted trace: "
              "every reply pulled is forwarded, refused by its own requestor's sink or discarded for its tag, except the one buffered - none overwritten or lost however slow "
-             "requestors are; every request handed to a replier is a pulled request carrying the router-assigned key (origin unforgeable, rest intact). NOT YET PROVED (evaluated "
-             "as predicates on every implementation trace and on the model state): order / at-most-once of requests, delivery of each reply to exactly the deserving requestor."),
+             "requestors are; every request handed to a replier is a pulled request carrying the router-assigned key (origin unforgeable, rest intact); the requests handed to repliers are, in "
+             "order, a subsequence of the requests pulled from requestors (at most once each, in sending order, only the tag changed); the replies delivered are, in order, a subsequence of "
+             "what the replier's emissions deserve - the requestor holding the key of the tag, tag stripped, rest intact - so each reply goes at most once to the requestor it answers and to "
+             "nobody else, and a reply with a missing/unknown/malformed tag is delivered to no one; every pulled request is handed over, refused by the replier's own sink, superseded in the "
+             "one-request buffer or still buffered, and it is superseded only while NO replier is bound (exactly once under a bound replier). NOT YET PROVED (evaluated as a predicate on "
+             "every implementation trace and on the model state): that a discarded reply never deserved a live requestor; liveness of hand-over is checked on drained traces."),
     'note': ROUTER_NOTE,
     'design': 'DESIGN.md section 3 C02',
 }
@@ -98,7 +102,9 @@ CHECKS['C09'] = {
              "implementation trace must agree bit for bit, which is what exposes a registration channel left unarmed. Every generated history ends with a wake-driven phase (sinks "
              "ready, task polled only when woken) after which everything must be delivered/flushed (pub/sub) resp. every deserved reply delivered (req/rep) and, after close, the "
              "future must have completed. Bounded work per poll: predicate on implementation traces (calls per poll <= linear in data consumed), a 20000-call spin limit and a 4 s "
-             "watchdog for mock-free spins. The bounded-step theorem is not yet proved."),
+             "watchdog for mock-free spins. PROVED for both routers, every accepted trace: whenever a poll is about to return Pending, either a peer sink holds the task's waker (the router is "
+             "blocked on it) or the registration channel does, having been polled to Pending in that very poll - neither router ever parks without a registered waker (the repaired "
+             "defect parked on streams alone with the channel unarmed). The bounded-step theorem is not yet proved."),
     'note': ROUTER_NOTE,
     'design': 'DESIGN.md section 3 C09',
 }
